@@ -4,8 +4,8 @@
 # (3) demo fails with it, (4) demo passes without it. Prints a one-line verdict.
 id=$1; n=$2
 src=/var/tmp/incoming/$id
-wt=/var/tmp/confirm-wt
-tgt=/var/tmp/confirm-tgt
+wt=${CONFIRM_WT:-/var/tmp/confirm-wt}
+tgt=${CONFIRM_TGT:-/var/tmp/confirm-tgt}
 export CARGO_NET_OFFLINE=true CARGO_TARGET_DIR=$tgt
 log=$src/confirm$n.log
 : > $log
@@ -24,8 +24,8 @@ run_demo() {
   else
     # python demo: needs the built wheel
     cargo build --release -p clvm_rs --offline >>$log 2>&1 || return 99
-    rm -rf /var/tmp/confirm-py && mkdir -p /var/tmp/confirm-py && cp -r $wt/wheel/python/clvm_rs /var/tmp/confirm-py/ && cp $tgt/release/libclvm_rs.so /var/tmp/confirm-py/clvm_rs/clvm_rs.so
-    PYTHONPATH=/var/tmp/confirm-py python3 $demo >>$log 2>&1
+    rm -rf /var/tmp/confirm-py-$id && mkdir -p /var/tmp/confirm-py-$id && cp -r $wt/wheel/python/clvm_rs /var/tmp/confirm-py-$id/ && cp $tgt/release/libclvm_rs.so /var/tmp/confirm-py-$id/clvm_rs/clvm_rs.so
+    PYTHONPATH=/var/tmp/confirm-py-$id python3 $demo >>$log 2>&1
     return $?
   fi
 }
